@@ -64,8 +64,36 @@ func (g *G) vars(pred func(varInfo) bool) []varInfo {
 
 func (g *G) varsOf(t *Type) []varInfo { return g.vars(func(v varInfo) bool { return v.T == t }) }
 
-func (g *G) intn(label string, lo, hi int) int { return rapid.IntRange(lo, hi).Draw(g.t, label) }
-func (g *G) chance(label string, pct int) bool  { return rapid.IntRange(0, 99).Draw(g.t, label) < pct }
+// uniform draws: rapid's integer generators are deliberately biased towards small values, which makes
+// structurally identical programs very likely; choices between alternatives are drawn uniformly from bits instead
+// (still through rapid, so shrinking and replay work)
+func uniform(t *rapid.T, n int, label string) int {
+	if n <= 1 {
+		return 0
+	}
+	bits := 0
+	for (1 << bits) < n {
+		bits++
+	}
+	for try := 0; try < 6; try++ {
+		v := 0
+		for i := 0; i < bits; i++ {
+			v <<= 1
+			if rapid.Bool().Draw(t, label) {
+				v |= 1
+			}
+		}
+		if v < n {
+			return v
+		}
+	}
+	return rapid.IntRange(0, n-1).Draw(t, label)
+}
+
+func pick[T any](t *rapid.T, xs []T, label string) T { return xs[uniform(t, len(xs), label)] }
+
+func (g *G) intn(label string, lo, hi int) int { return lo + uniform(g.t, hi-lo+1, label) }
+func (g *G) chance(label string, pct int) bool  { return uniform(g.t, 100, label) < pct }
 
 // ---------------------------------------------------------------- types
 
@@ -114,19 +142,19 @@ func (g *G) lit(t *Type) Expr {
 	switch t.K {
 	case KZahl:
 		if g.chance("zahl-boundary", 25) {
-			return &Lit{T: t, I: rapid.SampledFrom(zahlBoundary).Draw(g.t, "zb")}
+			return &Lit{T: t, I: pick(g.t, zahlBoundary, "zb")}
 		}
 		return &Lit{T: t, I: int64(g.intn("zahl", -20, 40))}
 	case KKomma:
-		return &Lit{T: t, F: rapid.SampledFrom(kommaVals).Draw(g.t, "kv")}
+		return &Lit{T: t, F: pick(g.t, kommaVals, "kv")}
 	case KByte:
-		return &Lit{T: t, I: int64(rapid.SampledFrom([]int{0, 1, 2, 3, 7, 100, 127, 128, 200, 254, 255}).Draw(g.t, "bv"))}
+		return &Lit{T: t, I: int64(pick(g.t, []int{0, 1, 2, 3, 7, 100, 127, 128, 200, 254, 255}, "bv"))}
 	case KBool:
 		return &Lit{T: t, B: rapid.Bool().Draw(g.t, "wv")}
 	case KChar:
-		return &Lit{T: t, C: rapid.SampledFrom(charVals).Draw(g.t, "cv")}
+		return &Lit{T: t, C: pick(g.t, charVals, "cv")}
 	case KText:
-		return &Lit{T: t, S: rapid.SampledFrom(textVals).Draw(g.t, "tv")}
+		return &Lit{T: t, S: pick(g.t, textVals, "tv")}
 	case KList:
 		n := g.intn("listlen", 0, 4)
 		if n == 0 {
@@ -158,7 +186,7 @@ func (g *G) Expr(t *Type, depth int) Expr {
 	// leaves
 	if depth <= 0 || g.chance("leaf", 25) {
 		if vs := g.varsOf(t); len(vs) > 0 && g.chance("use-var", 70) {
-			v := rapid.SampledFrom(vs).Draw(g.t, "var")
+			v := pick(g.t, vs, "var")
 			return &Ref{Name: v.Name, T: t}
 		}
 		return g.lit(t)
@@ -170,7 +198,7 @@ func (g *G) Expr(t *Type, depth int) Expr {
 	case KZahl:
 		switch k := g.intn("zahl-prod", 0, 15); k {
 		case 0, 1, 2:
-			op := rapid.SampledFrom([]string{"plus", "minus", "mal"}).Draw(g.t, "op")
+			op := pick(g.t, []string{"plus", "minus", "mal"}, "op")
 			lt, rt := intT("lt"), intT("rt")
 			if lt == TByte && rt == TByte {
 				rt = TZahl
@@ -185,7 +213,7 @@ func (g *G) Expr(t *Type, depth int) Expr {
 			g.feat("bin:modulo:" + lt.Src() + "," + rt.Src())
 			return &Bin{Op: "modulo", L: g.Expr(lt, d), R: g.nonZero(rt), T: t}
 		case 4:
-			op := rapid.SampledFrom([]string{"land", "lor", "lxor"}).Draw(g.t, "op")
+			op := pick(g.t, []string{"land", "lor", "lxor"}, "op")
 			lt, rt := intT("lt"), intT("rt")
 			if lt == TByte && rt == TByte {
 				rt = TZahl
@@ -193,7 +221,7 @@ func (g *G) Expr(t *Type, depth int) Expr {
 			g.feat("bin:" + op + ":" + lt.Src() + "," + rt.Src())
 			return &Bin{Op: op, L: g.Expr(lt, d), R: g.Expr(rt, d), T: t}
 		case 5:
-			op := rapid.SampledFrom([]string{"shl", "shr"}).Draw(g.t, "op")
+			op := pick(g.t, []string{"shl", "shr"}, "op")
 			g.feat("bin:" + op + ":Zahl")
 			var cnt Expr = smallZahl(g, "shcount", 0, 63)
 			if g.chance("byte-count", 30) {
@@ -212,11 +240,11 @@ func (g *G) Expr(t *Type, depth int) Expr {
 			g.feat("un:lnot:Zahl")
 			return &Un{Op: "lnot", X: g.Expr(TZahl, d), T: t}
 		case 9:
-			lt := rapid.SampledFrom([]*Type{TText, ListOf(TZahl), ListOf(TText), ListOf(TBool)}).Draw(g.t, "lent")
+			lt := pick(g.t, []*Type{TText, ListOf(TZahl), ListOf(TText), ListOf(TBool)}, "lent")
 			g.feat("un:len:" + lt.Src())
 			return &Un{Op: "len", X: g.Expr(lt, d), T: t}
 		case 10:
-			ft := rapid.SampledFrom([]*Type{TKomma, TByte, TBool, TChar}).Draw(g.t, "castfrom")
+			ft := pick(g.t, []*Type{TKomma, TByte, TBool, TChar}, "castfrom")
 			g.feat("cast:" + ft.Src() + "->Zahl")
 			if ft == TKomma {
 				return &Cast{X: g.smallKomma(d), T: t}
@@ -224,7 +252,7 @@ func (g *G) Expr(t *Type, depth int) Expr {
 			return &Cast{X: g.Expr(ft, d), T: t}
 		case 11:
 			g.feat("cast:Text->Zahl")
-			return &Cast{X: &Lit{T: TText, S: rapid.SampledFrom([]string{"0", "12", "-7", "9223372036854775807", "42"}).Draw(g.t, "numtext")}, T: t}
+			return &Cast{X: &Lit{T: TText, S: pick(g.t, []string{"0", "12", "-7", "9223372036854775807", "42"}, "numtext")}, T: t}
 		case 12:
 			return g.indexExpr(t, d)
 		case 13:
@@ -240,7 +268,7 @@ func (g *G) Expr(t *Type, depth int) Expr {
 	case KKomma:
 		switch k := g.intn("komma-prod", 0, 9); k {
 		case 0, 1, 2:
-			op := rapid.SampledFrom([]string{"plus", "minus", "mal"}).Draw(g.t, "op")
+			op := pick(g.t, []string{"plus", "minus", "mal"}, "op")
 			lt, rt := num("lt"), num("rt")
 			if lt != TKomma && rt != TKomma {
 				if g.chance("which", 50) {
@@ -262,7 +290,7 @@ func (g *G) Expr(t *Type, depth int) Expr {
 			g.feat("un:abs:Kommazahl")
 			return &Un{Op: "abs", X: g.Expr(TKomma, d), T: t}
 		case 7:
-			ft := rapid.SampledFrom([]*Type{TZahl, TByte}).Draw(g.t, "castfrom")
+			ft := pick(g.t, []*Type{TZahl, TByte}, "castfrom")
 			g.feat("cast:" + ft.Src() + "->Kommazahl")
 			return &Cast{X: g.Expr(ft, d), T: t}
 		case 8:
@@ -276,18 +304,18 @@ func (g *G) Expr(t *Type, depth int) Expr {
 	case KByte:
 		switch k := g.intn("byte-prod", 0, 8); k {
 		case 0, 1:
-			op := rapid.SampledFrom([]string{"plus", "minus", "mal"}).Draw(g.t, "op")
+			op := pick(g.t, []string{"plus", "minus", "mal"}, "op")
 			g.feat("bin:" + op + ":Byte,Byte")
 			return &Bin{Op: op, L: g.Expr(TByte, d), R: g.Expr(TByte, d), T: t}
 		case 2:
 			g.feat("bin:modulo:Byte,Byte")
 			return &Bin{Op: "modulo", L: g.Expr(TByte, d), R: g.nonZero(TByte), T: t}
 		case 3:
-			op := rapid.SampledFrom([]string{"land", "lor", "lxor"}).Draw(g.t, "op")
+			op := pick(g.t, []string{"land", "lor", "lxor"}, "op")
 			g.feat("bin:" + op + ":Byte,Byte")
 			return &Bin{Op: op, L: g.Expr(TByte, d), R: g.Expr(TByte, d), T: t}
 		case 4:
-			op := rapid.SampledFrom([]string{"shl", "shr"}).Draw(g.t, "op")
+			op := pick(g.t, []string{"shl", "shr"}, "op")
 			g.feat("bin:" + op + ":Byte")
 			var cnt Expr = smallZahl(g, "shcount", 0, 7)
 			if g.chance("byte-count", 50) {
@@ -298,10 +326,10 @@ func (g *G) Expr(t *Type, depth int) Expr {
 			g.feat("un:lnot:Byte")
 			return &Un{Op: "lnot", X: g.Expr(TByte, d), T: t}
 		case 6:
-			ft := rapid.SampledFrom([]*Type{TZahl, TZahl, TKomma}).Draw(g.t, "castfrom") // Wahrheitswert -> Byte is not admissible
+			ft := pick(g.t, []*Type{TZahl, TZahl, TKomma}, "castfrom") // Wahrheitswert -> Byte is not admissible
 			g.feat("cast:" + ft.Src() + "->Byte")
 			if ft == TKomma {
-				return &Cast{X: &Lit{T: TKomma, F: rapid.SampledFrom([]float64{0, 0.5, 1, 2.5, 100.25, 255, 200.75}).Draw(g.t, "kb")}, T: t}
+				return &Cast{X: &Lit{T: TKomma, F: pick(g.t, []float64{0, 0.5, 1, 2.5, 100.25, 255, 200.75}, "kb")}, T: t}
 			}
 			return &Cast{X: g.Expr(ft, d), T: t}
 		case 7:
@@ -315,11 +343,11 @@ func (g *G) Expr(t *Type, depth int) Expr {
 			g.feat("un:not")
 			return &Un{Op: "not", X: g.Expr(TBool, d), T: t}
 		case 1, 2:
-			op := rapid.SampledFrom([]string{"und", "oder", "xor"}).Draw(g.t, "op")
+			op := pick(g.t, []string{"und", "oder", "xor"}, "op")
 			g.feat("bin:" + op)
 			return &Bin{Op: op, L: g.Expr(TBool, d), R: g.Expr(TBool, d), T: t}
 		case 3, 4, 5:
-			op := rapid.SampledFrom([]string{"kleiner", "groesser", "kleinergleich", "groessergleich"}).Draw(g.t, "op")
+			op := pick(g.t, []string{"kleiner", "groesser", "kleinergleich", "groessergleich"}, "op")
 			lt, rt := num("lt"), num("rt")
 			g.feat("bin:" + op + ":" + lt.Src() + "," + rt.Src())
 			if g.chance("cmp-boundary", 40) {
@@ -328,7 +356,7 @@ func (g *G) Expr(t *Type, depth int) Expr {
 			}
 			return &Bin{Op: op, L: g.Expr(lt, d), R: g.Expr(rt, d), T: t}
 		case 6, 7, 8:
-			op := rapid.SampledFrom([]string{"gleich", "ungleich"}).Draw(g.t, "op")
+			op := pick(g.t, []string{"gleich", "ungleich"}, "op")
 			et := g.anyType("eqt")
 			if g.chance("eq-list-bias", 35) {
 				et = ListOf(g.scalarType("eq-elem"))
@@ -349,7 +377,7 @@ func (g *G) Expr(t *Type, depth int) Expr {
 				g.feat("eq:list-near-miss")
 			} else if lt, ok := l.(*Lit); ok && lt.T.K == KText && len(lt.S) > 0 && g.chance("eq-near-miss-text", 60) {
 				rs := []rune(lt.S)
-				rs[g.intn("eq-miss-at-t", 0, len(rs)-1)] = rapid.SampledFrom(charVals).Draw(g.t, "eqc")
+				rs[g.intn("eq-miss-at-t", 0, len(rs)-1)] = pick(g.t, charVals, "eqc")
 				r = &Lit{T: TText, S: string(rs)}
 				g.feat("eq:text-near-miss")
 			}
@@ -364,7 +392,7 @@ func (g *G) Expr(t *Type, depth int) Expr {
 			}
 			return &Between{X: g.Expr(xt, d), A: g.Expr(at, d), B: g.Expr(bt, d)}
 		case 10:
-			ft := rapid.SampledFrom([]*Type{TZahl, TByte}).Draw(g.t, "castfrom")
+			ft := pick(g.t, []*Type{TZahl, TByte}, "castfrom")
 			g.feat("cast:" + ft.Src() + "->Wahrheitswert")
 			return &Cast{X: g.Expr(ft, d), T: t}
 		case 11:
@@ -384,12 +412,12 @@ func (g *G) Expr(t *Type, depth int) Expr {
 			return g.indexExpr(t, d)
 		case 2:
 			g.feat("cast:Zahl->Buchstabe")
-			return &Cast{X: &Lit{T: TZahl, I: int64(rapid.SampledFrom(charVals).Draw(g.t, "cp"))}, T: t}
+			return &Cast{X: &Lit{T: TZahl, I: int64(pick(g.t, charVals, "cp"))}, T: t}
 		case 3:
 			return g.fallsExpr(t, d)
 		default:
 			g.feat("cast:Byte->Buchstabe")
-			return &Cast{X: &Lit{T: TByte, I: int64(rapid.SampledFrom([]int{65, 97, 48, 122, 32}).Draw(g.t, "bcp"))}, T: t}
+			return &Cast{X: &Lit{T: TByte, I: int64(pick(g.t, []int{65, 97, 48, 122, 32}, "bcp"))}, T: t}
 		}
 	case KText:
 		switch k := g.intn("text-prod", 0, 10); k {
@@ -407,7 +435,7 @@ func (g *G) Expr(t *Type, depth int) Expr {
 		case 3, 4:
 			return g.sliceExpr(t, d)
 		case 5, 6:
-			ft := rapid.SampledFrom([]*Type{TZahl, TKomma, TByte, TBool, TChar}).Draw(g.t, "castfrom")
+			ft := pick(g.t, []*Type{TZahl, TKomma, TByte, TBool, TChar}, "castfrom")
 			g.feat("cast:" + ft.Src() + "->Text")
 			return &Cast{X: g.Expr(ft, d), T: t}
 		case 7:
@@ -503,15 +531,15 @@ func eqClass(t *Type) string {
 func (g *G) near(t *Type, n int) Expr {
 	switch t {
 	case TKomma:
-		return &Lit{T: t, F: float64(n) + rapid.SampledFrom([]float64{0, 0.5, -0.5, 1, -1, 2, -2.5}).Draw(g.t, "near-k")}
+		return &Lit{T: t, F: float64(n) + pick(g.t, []float64{0, 0.5, -0.5, 1, -1, 2, -2.5}, "near-k")}
 	case TByte:
-		v := n + rapid.SampledFrom([]int{0, 1, -1, 2}).Draw(g.t, "near-b")
+		v := n + pick(g.t, []int{0, 1, -1, 2}, "near-b")
 		if v < 0 {
 			v = 0
 		}
 		return &Lit{T: t, I: int64(v)}
 	}
-	return &Lit{T: TZahl, I: int64(n + rapid.SampledFrom([]int{0, 0, 1, -1, 2, -2}).Draw(g.t, "near-z"))}
+	return &Lit{T: TZahl, I: int64(n + pick(g.t, []int{0, 0, 1, -1, 2, -2}, "near-z"))}
 }
 
 // heapTemp builds an expression of a non-primitive type that allocates a temporary when evaluated
@@ -529,14 +557,14 @@ func (g *G) heapTemp(t *Type) Expr {
 
 func (g *G) nonZero(t *Type) Expr {
 	if t == TByte {
-		return &Lit{T: TByte, I: int64(rapid.SampledFrom([]int{1, 2, 3, 7, 100, 255}).Draw(g.t, "nzb"))}
+		return &Lit{T: TByte, I: int64(pick(g.t, []int{1, 2, 3, 7, 100, 255}, "nzb"))}
 	}
-	return &Lit{T: TZahl, I: rapid.SampledFrom([]int64{1, 2, 3, -2, 7, 10, 256, -1}).Draw(g.t, "nz")}
+	return &Lit{T: TZahl, I: pick(g.t, []int64{1, 2, 3, -2, 7, 10, 256, -1}, "nz")}
 }
 
 // a Kommazahl expression that converts to Zahl inside the specified domain
 func (g *G) smallKomma(d int) Expr {
-	return &Lit{T: TKomma, F: rapid.SampledFrom([]float64{0, 0.5, -0.5, 2.5, -2.5, 3.75, 100.25, 1e6, -123456.789, 255.9, 1e15}).Draw(g.t, "sk")}
+	return &Lit{T: TKomma, F: pick(g.t, []float64{0, 0.5, -0.5, 2.5, -2.5, 3.75, 100.25, 1e6, -123456.789, 255.9, 1e15}, "sk")}
 }
 
 func (g *G) fallsExpr(t *Type, d int) Expr {
@@ -626,7 +654,7 @@ func (g *G) fieldExpr(t *Type, d int) Expr {
 	if len(vs) == 0 {
 		return g.lit(t)
 	}
-	v := rapid.SampledFrom(vs).Draw(g.t, "fvar")
+	v := pick(g.t, vs, "fvar")
 	var names []string
 	for _, f := range v.T.S.Fields {
 		if f.T == t {
@@ -634,7 +662,7 @@ func (g *G) fieldExpr(t *Type, d int) Expr {
 		}
 	}
 	g.feat("field:" + eqClass(t))
-	return &FieldGet{X: &Ref{Name: v.Name, T: v.T}, Name: rapid.SampledFrom(names).Draw(g.t, "fname"), T: t}
+	return &FieldGet{X: &Ref{Name: v.Name, T: v.T}, Name: pick(g.t, names, "fname"), T: t}
 }
 
 func (g *G) callExpr(t *Type, d int) Expr {
@@ -647,7 +675,7 @@ func (g *G) callExpr(t *Type, d int) Expr {
 	if len(cands) == 0 {
 		return nil
 	}
-	f := rapid.SampledFrom(cands).Draw(g.t, "callee")
+	f := pick(g.t, cands, "callee")
 	c := g.mkCall(f, d)
 	if c == nil {
 		return nil
@@ -661,10 +689,41 @@ func (g *G) mkCall(f *Func, d int) *Call {
 	for _, p := range f.Params {
 		if p.Ref {
 			vs := g.vars(func(v varInfo) bool { return v.T == p.T && !v.Frozen })
+			// an element of a list variable / a field of a Kombination variable can be passed by Referenz, too
+			if g.chance("ref-arg-element", 30) {
+				if ls := g.vars(func(v varInfo) bool { return !v.Frozen && v.T.K == KList && v.T.Elem == p.T }); len(ls) > 0 && g.cfg.AllowRTE {
+					v := pick(g.t, ls, "refelem")
+					c.Args = append(c.Args, &LRef{L: LValue{Root: v.Name, RT: v.T, Path: []Step{{Index: smallZahl(g, "refelem-i", 1, 2)}}, T: p.T}})
+					g.feat("call:ref:element")
+					continue
+				}
+				if ss := g.vars(func(v varInfo) bool {
+					if v.Frozen || v.T.K != KStruct {
+						return false
+					}
+					for _, f := range v.T.S.Fields {
+						if f.T == p.T {
+							return true
+						}
+					}
+					return false
+				}); len(ss) > 0 {
+					v := pick(g.t, ss, "reffield")
+					var names []string
+					for _, f := range v.T.S.Fields {
+						if f.T == p.T {
+							names = append(names, f.Name)
+						}
+					}
+					c.Args = append(c.Args, &LRef{L: LValue{Root: v.Name, RT: v.T, Path: []Step{{Field: pick(g.t, names, "reffield-n")}}, T: p.T}})
+					g.feat("call:ref:field")
+					continue
+				}
+			}
 			if len(vs) == 0 {
 				return nil
 			}
-			v := rapid.SampledFrom(vs).Draw(g.t, "refarg")
+			v := pick(g.t, vs, "refarg")
 			if usedRef[v.Name] {
 				g.feat("call:ref+ref:sameVar")
 			}
@@ -698,7 +757,7 @@ func (g *G) lvalue() (LValue, bool) {
 	if len(vs) == 0 {
 		return LValue{}, false
 	}
-	v := rapid.SampledFrom(vs).Draw(g.t, "lv")
+	v := pick(g.t, vs, "lv")
 	l := LValue{Root: v.Name, RT: v.T, T: v.T}
 	switch v.T.K {
 	case KList:
@@ -709,7 +768,7 @@ func (g *G) lvalue() (LValue, bool) {
 				l.T = v.T.Elem
 				g.feat("lvalue:element:" + eqClass(v.T))
 				if l.T.K == KStruct && g.chance("lv-elem-field", 50) {
-					f := rapid.SampledFrom(l.T.S.Fields).Draw(g.t, "lvf")
+					f := pick(g.t, l.T.S.Fields, "lvf")
 					l.Path = append(l.Path, Step{Field: f.Name})
 					l.T = f.T
 					g.feat("lvalue:element.field")
@@ -727,7 +786,7 @@ func (g *G) lvalue() (LValue, bool) {
 		}
 	case KStruct:
 		if g.chance("lv-field", 60) {
-			f := rapid.SampledFrom(v.T.S.Fields).Draw(g.t, "lvf")
+			f := pick(g.t, v.T.S.Fields, "lvf")
 			l.Path = append(l.Path, Step{Field: f.Name})
 			l.T = f.T
 			g.feat("lvalue:field:" + eqClass(f.T))
@@ -845,11 +904,11 @@ func (g *G) stmt() []Stmt {
 			g.feat("repeatlist:" + eqClass(t))
 		} else if t.IsNumeric() && g.chance("numeric-conv-init", 30) {
 			// initialiser of another numeric type: implicit conversion
-			ft := rapid.SampledFrom([]*Type{TZahl, TKomma, TByte}).Draw(g.t, "initfrom")
+			ft := pick(g.t, []*Type{TZahl, TKomma, TByte}, "initfrom")
 			if ft == TKomma && t != TKomma {
 				init = g.smallKomma(d)
 				if t == TByte {
-					init = &Lit{T: TKomma, F: rapid.SampledFrom([]float64{0, 0.5, 2.5, 100.25, 255, 200.75}).Draw(g.t, "kb2")}
+					init = &Lit{T: TKomma, F: pick(g.t, []float64{0, 0.5, 2.5, 100.25, 255, 200.75}, "kb2")}
 				}
 			} else {
 				init = g.Expr(ft, d)
@@ -877,7 +936,7 @@ func (g *G) stmt() []Stmt {
 		}
 		var x Expr
 		if l.T.IsNumeric() && g.chance("assign-conv", 30) {
-			ft := rapid.SampledFrom([]*Type{TZahl, TByte}).Draw(g.t, "assignfrom")
+			ft := pick(g.t, []*Type{TZahl, TByte}, "assignfrom")
 			x = g.Expr(ft, d)
 			g.feat("assign-conv:" + ft.Src() + "->" + l.T.Src())
 		} else {
@@ -893,20 +952,20 @@ func (g *G) stmt() []Stmt {
 		if len(vs) == 0 {
 			return []Stmt{&Print{X: g.Expr(TBool, d)}}
 		}
-		v := rapid.SampledFrom(vs).Draw(g.t, "cv")
+		v := pick(g.t, vs, "cv")
 		l := LValue{Root: v.Name, RT: v.T, T: v.T}
 		var s Stmt
 		if v.T == TBool {
 			s = &Compound{Op: "negiere", Target: l}
 			g.feat("compound:negiere")
 		} else {
-			op := rapid.SampledFrom([]string{"erhoehe", "verringere", "vervielfache", "teile"}).Draw(g.t, "cop")
-			xt := rapid.SampledFrom([]*Type{TZahl, TByte, TKomma}).Draw(g.t, "cxt")
+			op := pick(g.t, []string{"erhoehe", "verringere", "vervielfache", "teile"}, "cop")
+			xt := pick(g.t, []*Type{TZahl, TByte, TKomma}, "cxt")
 			var x Expr
 			if xt == TKomma {
-				x = &Lit{T: TKomma, F: rapid.SampledFrom([]float64{0.5, 2, 2.5, 4, -1.5}).Draw(g.t, "ck")}
+				x = &Lit{T: TKomma, F: pick(g.t, []float64{0.5, 2, 2.5, 4, -1.5}, "ck")}
 				if v.T != TKomma && (op != "teile") {
-					x = &Lit{T: TKomma, F: rapid.SampledFrom([]float64{0.5, 2, 2.5}).Draw(g.t, "ck2")}
+					x = &Lit{T: TKomma, F: pick(g.t, []float64{0.5, 2, 2.5}, "ck2")}
 				}
 			} else if op == "teile" {
 				x = g.nonZero(xt)
@@ -941,9 +1000,9 @@ func (g *G) stmt() []Stmt {
 			cond = &Bin{Op: "und", L: cond, R: g.Expr(TBool, 1), T: TBool}
 		} else if g.cfg.Bias == "heap" && g.chance("while-heap-cond", 50) {
 			// a condition that creates temporaries on every evaluation
-			ht := rapid.SampledFrom([]*Type{TText, ListOf(TZahl), ListOf(TText)}).Draw(g.t, "whct")
-			extra := &Bin{Op: rapid.SampledFrom([]string{"gleich", "ungleich"}).Draw(g.t, "whop"), L: g.heapTemp(ht), R: g.heapTemp(ht), T: TBool}
-			cond = &Bin{Op: rapid.SampledFrom([]string{"und", "oder"}).Draw(g.t, "whjoin"), L: extra, R: cond, T: TBool}
+			ht := pick(g.t, []*Type{TText, ListOf(TZahl), ListOf(TText)}, "whct")
+			extra := &Bin{Op: pick(g.t, []string{"gleich", "ungleich"}, "whop"), L: g.heapTemp(ht), R: g.heapTemp(ht), T: TBool}
+			cond = &Bin{Op: pick(g.t, []string{"und", "oder"}, "whjoin"), L: extra, R: cond, T: TBool}
 			if b := cond.(*Bin); b.Op == "oder" { // keep termination: (extra oder wahr-ish) would not terminate
 				b.Op = "und"
 				b.L = &Bin{Op: "oder", L: extra, R: &Lit{T: TBool, B: true}, T: TBool}
@@ -971,15 +1030,15 @@ func (g *G) stmt() []Stmt {
 		g.feat("repeat")
 		return []Stmt{&RepeatN{N: n, Body: body}}
 	case k == 13: // counting for
-		ct := rapid.SampledFrom([]*Type{TZahl, TZahl, TZahl, TKomma, TByte}).Draw(g.t, "fort")
+		ct := pick(g.t, []*Type{TZahl, TZahl, TZahl, TKomma, TByte}, "fort")
 		v := g.name("i")
 		s := &ForCount{Var: v, T: ct}
 		switch ct {
 		case TKomma:
-			s.From = &Lit{T: TKomma, F: rapid.SampledFrom([]float64{0, 0.5, 1, 2.5}).Draw(g.t, "ff")}
-			s.To = &Lit{T: TKomma, F: rapid.SampledFrom([]float64{0, 1, 2, 3.5, -1}).Draw(g.t, "ft")}
+			s.From = &Lit{T: TKomma, F: pick(g.t, []float64{0, 0.5, 1, 2.5}, "ff")}
+			s.To = &Lit{T: TKomma, F: pick(g.t, []float64{0, 1, 2, 3.5, -1}, "ft")}
 			if g.chance("fstep", 60) {
-				s.Step = &Lit{T: TKomma, F: rapid.SampledFrom([]float64{0.5, 1, 1.5, -0.5, -1}).Draw(g.t, "fs")}
+				s.Step = &Lit{T: TKomma, F: pick(g.t, []float64{0.5, 1, 1.5, -0.5, -1}, "fs")}
 			}
 		case TByte:
 			s.From = &Lit{T: TZahl, I: int64(g.intn("bf", 0, 3))}
@@ -995,11 +1054,11 @@ func (g *G) stmt() []Stmt {
 				g.feat("for:byte-bound")
 			}
 			if g.chance("zstep", 50) {
-				s.Step = &Lit{T: TZahl, I: rapid.SampledFrom([]int64{1, 2, 3, -1, -2}).Draw(g.t, "zs")}
+				s.Step = &Lit{T: TZahl, I: pick(g.t, []int64{1, 2, 3, -1, -2}, "zs")}
 			}
 			if g.cfg.Bias == "heap" && g.chance("for-heap-bound", 50) {
 				// end value / step computed from temporaries
-				ht := rapid.SampledFrom([]*Type{TText, ListOf(TZahl), ListOf(TText)}).Draw(g.t, "fhbt")
+				ht := pick(g.t, []*Type{TText, ListOf(TZahl), ListOf(TText)}, "fhbt")
 				s.To = &Un{Op: "len", X: g.heapTemp(ht), T: TZahl}
 				if g.chance("for-heap-step", 30) {
 					s.Step = &Bin{Op: "plus", L: &Un{Op: "len", X: g.heapTemp(ht), T: TZahl}, R: &Lit{T: TZahl, I: 1}, T: TZahl}
@@ -1028,7 +1087,7 @@ func (g *G) stmt() []Stmt {
 		g.feat("for:" + ct.Src())
 		return []Stmt{s}
 	case k == 14: // for each
-		ct := rapid.SampledFrom([]*Type{TText, ListOf(TZahl), ListOf(TText), ListOf(TKomma), ListOf(TBool), ListOf(TChar), ListOf(TByte)}).Draw(g.t, "eacht")
+		ct := pick(g.t, []*Type{TText, ListOf(TZahl), ListOf(TText), ListOf(TKomma), ListOf(TBool), ListOf(TChar), ListOf(TByte)}, "eacht")
 		if g.cfg.Structs && len(g.prog.Structs) > 0 && g.chance("each-struct", 20) {
 			ct = ListOf(g.prog.Structs[0].Type())
 		}
@@ -1087,7 +1146,7 @@ func (g *G) stmt() []Stmt {
 		if len(cands) == 0 {
 			return []Stmt{&Print{X: g.Expr(TKomma, d)}}
 		}
-		f := rapid.SampledFrom(cands).Draw(g.t, "cs")
+		f := pick(g.t, cands, "cs")
 		c := g.mkCall(f, d-1)
 		if c == nil {
 			return []Stmt{&Print{X: g.Expr(TZahl, d)}}
@@ -1107,7 +1166,12 @@ func (g *G) stmt() []Stmt {
 		// show the effect on Referenz arguments
 		for i, p := range f.Params {
 			if p.Ref {
-				out = append(out, g.printVar(varInfo{Name: c.Args[i].(*Ref).Name, T: p.T})...)
+				switch a := c.Args[i].(type) {
+				case *Ref:
+					out = append(out, g.printVar(varInfo{Name: a.Name, T: p.T})...)
+				case *LRef:
+					out = append(out, g.printVar(varInfo{Name: a.L.Root, T: a.L.RT})...)
+				}
 			}
 		}
 		return out
@@ -1133,6 +1197,7 @@ func (g *G) stmt() []Stmt {
 // forceCall declares fresh variables for the Referenz parameters and calls f, printing result and Referenz arguments.
 func (g *G) forceCall(f *Func) []Stmt {
 	var out []Stmt
+	var valVars []varInfo
 	c := &Call{F: f}
 	shared := ""
 	for _, p := range f.Params {
@@ -1159,11 +1224,23 @@ func (g *G) forceCall(f *Func) []Stmt {
 					continue
 				}
 			}
+			if !p.T.IsPrim() && g.chance("val-arg-as-variable", 65) {
+				// pass a variable by value and print it after the call: the callee must not be able to change it
+				name := g.name("a")
+				g.declare(varInfo{Name: name, T: p.T})
+				out = append(out, &VarDecl{Name: name, T: p.T, Init: g.lit(p.T)})
+				c.Args = append(c.Args, &Ref{Name: name, T: p.T})
+				valVars = append(valVars, varInfo{Name: name, T: p.T})
+				shared = name
+				g.feat("call:val-variable:" + eqClass(p.T))
+				continue
+			}
 			c.Args = append(c.Args, g.Expr(p.T, g.cfg.MaxDepth-1))
 			g.feat("call:val:" + eqClass(p.T))
 		}
 	}
 	g.feat("call")
+	defer func() {}()
 	if f.Ret == nil {
 		out = append(out, &CallStmt{C: c})
 	} else if Printable(f.Ret) {
@@ -1179,6 +1256,9 @@ func (g *G) forceCall(f *Func) []Stmt {
 			out = append(out, g.printVar(varInfo{Name: c.Args[i].(*Ref).Name, T: p.T})...)
 		}
 	}
+	for _, v := range valVars {
+		out = append(out, g.printVar(v)...)
+	}
 	return out
 }
 
@@ -1187,13 +1267,13 @@ var aliasWords = []string{"berechne", "mache", "nimm", "wandle", "pruefe", "samm
 func (g *G) genFunc(i int) *Func {
 	f := &Func{Name: fmt.Sprintf("f%d", i)}
 	np := g.intn("nparams", 0, 3)
-	f.Words = []string{fmt.Sprintf("%s%d", rapid.SampledFrom(aliasWords).Draw(g.t, "aw"), i)}
+	f.Words = []string{fmt.Sprintf("%s%d", pick(g.t, aliasWords, "aw"), i)}
 	g.push()
 	for j := 0; j < np; j++ {
 		p := Param{Name: fmt.Sprintf("p%d_%d", i, j), T: g.anyType("pt")}
 		p.Ref = g.chance("ref", 30)
 		f.Params = append(f.Params, p)
-		f.Words = append(f.Words, rapid.SampledFrom([]string{"", "", "mit", "und", "dann"}).Draw(g.t, "sep"))
+		f.Words = append(f.Words, pick(g.t, []string{"", "", "mit", "und", "dann"}, "sep"))
 		g.declare(varInfo{Name: p.Name, T: p.T, IsRef: p.Ref})
 	}
 	// avoid two adjacent placeholders only separated by nothing being ambiguous with negative literals etc.: fine, args are atomic/parenthesised
